@@ -212,6 +212,25 @@ void ascon_masked_aead_decrypt_16
 
 /* Masking is not needed with 1 data share */
 
+/* The random number generator runs a permutation state of its own, so the
+ * unmasked data state must not be held while randomness is generated.
+ * Take a copy of the state and release it, and later mask the copy. */
+#define ascon_masked_data_x1_release(state_x1, buf) \
+    do { \
+        ascon_extract_bytes((state_x1), (buf), 0, 40); \
+        ascon_release((state_x1)); \
+    } while (0)
+#define ascon_masked_data_x1_acquire(state, state_x1, buf, trng) \
+    do { \
+        int x1_index; \
+        for (x1_index = 0; x1_index < 5; ++x1_index) { \
+            ascon_masked_key_load \
+                (&((state)->M[x1_index]), (buf) + x1_index * 8, (trng)); \
+        } \
+        ascon_clean((buf), 40); \
+        ascon_acquire((state_x1)); \
+    } while (0)
+
 #elif ASCON_MASKED_DATA_SHARES == 2
 
 #define ascon_masked_data_load(word, data, trng) \
